@@ -12,6 +12,8 @@ def settings_grid(versions=range(2, 11), modes=("app", "sig"), opts=((None, None
     for v in versions:
         for m in modes:
             for ss, fp in opts:
+                if fp is True and v < 8:
+                    continue            # frame pointers cannot be requested below version 8 (PyTeal refuses the option itself)
                 st = {"v": v, "mode": m}
                 if ss is not None:
                     st["ss"] = ss
